@@ -136,7 +136,11 @@ public:
 
   linear_expression(Number n, variable_t x)
       : _map(std::make_shared<map_t>()), _cst(0) {
-    this->_map->insert(pair_t(x, n));
+    // keep the normal form (no term with coefficient 0), as add() and
+    // operator*() do: 0*x is the constant 0.
+    if (n != 0) {
+      this->_map->insert(pair_t(x, n));
+    }
   }
 
   linear_expression(const linear_expression_t &e) = default;
